@@ -46,4 +46,35 @@ def finishOf (locks : List Bool) (s : Sorted) : Res :=
       .error .assert
     else .ok (embed locks out)
 
+/-! ### audit pass: `inf_retis` with the results of the two `np.argsort` calls as inputs
+
+numpy's default argsort is not stable, so on ties the code's `sort_idx` is not the model's (`argsort` =
+`List.mergeSort`).  `infRetisGiven` is `inf_retis` with the two argsort results handed in; `sortsB` is the only
+thing assumed about them (Lemmas/PermAnyOrder.lean: `Sorts`). -/
+
+/-- `xs` is non-decreasing -/
+def nondecr : List Int → Bool
+  | [] => true
+  | [_] => true
+  | a :: b :: rest => decide (a ≤ b) && nondecr (b :: rest)
+
+/-- `idx` is a possible result of `np.argsort(keys)`: a permutation of the positions that reads the keys in
+    non-decreasing order -/
+def sortsB (keys : List Int) (idx : List Nat) : Bool :=
+  idx.isPerm (List.range keys.length) && nondecr (idx.map (fun i => keys.getD i 0))
+
+/-- `inf_retis` given the results `a`, `b` of its two argsort calls -/
+def infRetisGiven (W : Mat) (locks : List Bool) (off : Nat) (a b : List Nat) : Res :=
+  finishOf locks (prepareGiven off W locks a b)
+
+/-- `Infretis.Perm.branches` for a given preparation -/
+def branchesOfSorted (s : Sorted) : List String :=
+  if s.m = 0 then ["empty"]
+  else if s.equal then ["equal"]
+  else match findBlocks s.sorted s.offset with
+    | .single => ["single-tuple"]
+    | .list bs => bs.map (fun b =>
+        match branchOf (subBlock s.sorted b.1 b.2.1 b.2.2) with
+        | .single => "single" | .quick => "quick" | .glynn => "glynn" | .random => "random")
+
 end Infretis.Perm
